@@ -94,6 +94,8 @@ def alphabet(kind):
     else:
         A.append(("connect(c0b1c0->c1b0c0,Iono)", lambda m: connect(m.cell(0).branch(1).comp(0), m.cell(1).branch(0).comp(0), IonotropicSynapse())))
         A.append(("set(gS)@IonotropicSynapse", lambda m: m.IonotropicSynapse.set("IonotropicSynapse_gS", 5e-4)))
+        A.append(("set(gS)@net", lambda m: m.set("IonotropicSynapse_gS", 4e-4)))       # a view that spans synapses of another type (seeded change C19_e)
+        A.append(("set(gC)@cell([0,1])", lambda m: m.cell([0, 1]).set("TestSynapse_gC", 2e-4)))
         A.append(("clamp(Iono_s)@IonotropicSynapse.edge(0)", lambda m: m.IonotropicSynapse.edge(0).clamp("IonotropicSynapse_s", jnp.ones(3) * 0.4, verbose=False)))
         A.append(("record(Iono_s)@IonotropicSynapse", lambda m: m.IonotropicSynapse.record("IonotropicSynapse_s", verbose=False)))
     return A
@@ -193,6 +195,15 @@ def wf(m):
             for key in list(syn.synapse_params) + list(syn.synapse_states):
                 if key not in edges.columns or edges.loc[rows, key].isna().any():
                     bad.append(f"edges: {key} missing for a {syn._name} synapse")
+                elif key in edges.columns:
+                    # ... and present ONLY there: a synapse of another type that does not use the key must not carry a value
+                    users = np.zeros(len(edges), dtype=bool)
+                    for j, other in enumerate(m.synapses):
+                        if key in other.synapse_params or key in other.synapse_states:
+                            users |= (edges["type_ind"] == j).to_numpy()
+                    stray = edges.index[(~users) & edges[key].notna().to_numpy()]
+                    if len(stray):
+                        bad.append(f"edges: {key} has a value in rows {list(map(int, stray))[:4]} whose synapse type does not have that parameter/state")
     try:
         pickle.dumps(m)
     except Exception as e:
@@ -538,7 +549,7 @@ def main(tier):
         ref = oc[0] == "ok" and not oc[1]["error"] and any(r["status"] != "proved" for r in oc[1]["results"])
         ck.canary(f"{can[0]}: {can[2][:50]!r} -> {can[3][:50]!r}", ref, oc)
     ck.bounded = {"evaluations": evals, "distinct_nontrivial": cases, "exhaustive": tier != "quick", "refused_operations": refused, "states_simulated_symbolically": len(states),
-                  "rule": "alphabet of 35 (cell) / 37 (network) view x operation letters (insert/delete_channel of HH, Na, K, Km, CaT, CaL on various views; set; add_to_group; record; delete_recordings; stimulate; clamp; delete_stimuli (view and module); delete_clamps; "
+                  "rule": "alphabet of 35 (cell) / 39 (network) view x operation letters (insert/delete_channel of HH, Na, K, Km, CaT, CaL on various views; set; add_to_group; record; delete_recordings; stimulate; clamp; delete_stimuli (view and module); delete_clamps; "
                           "make_trainable; delete_trainables; init_states; set_ncomp (cell) / connect and set on a synapse view (network)) on an irregular cell (ncomp [2,1,3]) and a 2-cell network with 2 synapse types; all histories of depth 1 and 2, depth 3 with stride 37 (quick) / all (thorough); "
                           "wf evaluated after every accepted operation (evaluations); a case = a distinct fully accepted history"}
     for f in ("jaxley.modules.base.Module.insert", "jaxley.modules.base.Module.delete_channel", "jaxley.modules.base.Module.set", "jaxley.modules.base.Module.set_ncomp", "jaxley.modules.base.Module.add_to_group",
